@@ -103,7 +103,7 @@ theorem C01_no_other_route (rt : Route) (c : Ctx) (U : Bytes)
 context) keeps the request, the configuration, the clock and every user record. -/
 theorem C01_mwreach (c c' : Ctx) (h : MwReach c c') :
     c'.req = c.req ∧ c'.cfg = c.cfg ∧ c'.now = c.now ∧ c'.store.users = c.store.users ∧
-    (∀ k v, c'.sess.get k = some v → c.sess.get k = some v) := h
+    (∀ k v, k ≠ SKey.halfauth → c'.sess.get k = some v → c.sess.get k = some v) := h
 
 /-! ### Non-vacuity (concrete reachable states; these are tests of the model, evaluated by the kernel) -/
 
